@@ -34,6 +34,34 @@ func runCrash(rep *Report) {
 			p.FreeRun = 254 + (i/12)%3
 			p.Txs = 6
 		}
+		if i%12 == 5 {
+			// full bounded files whose committed state keeps meta pages in the overflow area (beyond the limit),
+			// with rolled back transactions in between (their clean-up truncates the file)
+			if cfg.MaxPages == 0 {
+				cfg.MaxPages = uint64(65536/cfg.PageSize) + uint64(r.Intn(24))
+				if uint64(cfg.InitMeta) >= cfg.MaxPages-2 {
+					cfg.InitMeta = 4
+				}
+			}
+			p.Overflow, p.KeepFill, p.BigAlloc, p.AbortPct, p.Reopen = 60, 95, 40, 40, 15
+			p.MinAlloc = int(cfg.MaxPages / 3) // full after a few transactions
+			p.Txs += 4
+			p.OnQuiesce = func(s *engine.Session) {
+				// a transaction that is rolled back while the committed state lives partly in the overflow area
+				if s.F == nil || s.Tx != nil {
+					return
+				}
+				if fs := s.F.VerifSnapshot(); fs.MaxPages > 0 && fs.MetaEnd > fs.MaxPages && fs.MetaEnd > fs.DataEnd {
+					if s.Begin(engine.TxOpts{}) == "ok" {
+						if live := s.LiveIDs(); len(live) > 0 {
+							s.Write(live[0], "full")
+						}
+						s.Rollback([]string{"rollback", "close"}[int(fs.Stats.DataAllocated)%2])
+						s.Mark("rollback-on-overflow-state")
+					}
+				}
+			}
+		}
 		s := engine.RunProgram(r, cfg, p)
 		s.Finish()
 		if tw != nil {
